@@ -313,6 +313,21 @@ class TrioEnv:
     async def set_terminated(self) -> None:
         await self.context.terminated.set()
 
+    def spawn_at(self, dt: float, passes: int, fn: Callable[[], Awaitable[Any]]) -> None:
+        """See AioEnv.spawn_at: an action that interleaves with the work of its instant."""
+        deadline = trio.current_time() + dt
+
+        async def runner() -> None:
+            await trio.sleep_until(deadline)
+            for _ in range(passes):
+                await trio.lowlevel.checkpoint()
+            await fn()
+
+        self.nursery.start_soon(runner)
+
+    def check_injected(self) -> None:
+        pass  # an exception in an injected action propagates through the nursery
+
     def alive_tasks(self) -> List[str]:
         return [f"conn-{c.cid}" for c in self.conns if c.handler_done_at is None]
 
